@@ -23,6 +23,13 @@ from mypy.nodes import (
 ConstantValue = int | bool | float | complex | str
 CONST_TYPES: Final = (int, bool, float, complex, str)
 
+# Don't fold operations whose result would be huge compared to the source text
+# (such as 1 << 10**10, 9**9**9 or "x" * 10**12, or repeated squaring/doubling
+# through a chain of final names). Evaluating these could take unbounded time
+# and memory. CPython's own constant folder has similar limits.
+MAX_FOLDED_INT_BITS: Final = 4096
+MAX_FOLDED_STR_LEN: Final = 4096
+
 
 def constant_fold_expr(expr: Expression, cur_mod_id: str) -> ConstantValue | None:
     """Return the constant value of an expression for supported operations.
@@ -104,11 +111,14 @@ def constant_fold_binary_op_unchecked(
 
     # String concatenation and multiplication.
     if op == "+" and isinstance(left, str) and isinstance(right, str):
-        return left + right
+        if len(left) + len(right) <= MAX_FOLDED_STR_LEN:
+            return left + right
     elif op == "*" and isinstance(left, str) and isinstance(right, int):
-        return left * right
+        if len(left) * right <= MAX_FOLDED_STR_LEN:
+            return left * right
     elif op == "*" and isinstance(left, int) and isinstance(right, str):
-        return left * right
+        if left * len(right) <= MAX_FOLDED_STR_LEN:
+            return left * right
 
     # Complex construction.
     if op == "+" and isinstance(left, (int, float)) and isinstance(right, complex):
@@ -129,7 +139,8 @@ def constant_fold_binary_int_op(op: str, left: int, right: int) -> int | float |
     if op == "-":
         return left - right
     elif op == "*":
-        return left * right
+        if left.bit_length() + right.bit_length() <= MAX_FOLDED_INT_BITS:
+            return left * right
     elif op == "/":
         if right != 0:
             return left / right
@@ -146,13 +157,19 @@ def constant_fold_binary_int_op(op: str, left: int, right: int) -> int | float |
     elif op == "^":
         return left ^ right
     elif op == "<<":
-        if right >= 0:
+        if 0 <= right <= MAX_FOLDED_INT_BITS and left.bit_length() + right <= MAX_FOLDED_INT_BITS:
             return left << right
     elif op == ">>":
         if right >= 0:
             return left >> right
     elif op == "**":
-        if right >= 0:
+        if right >= 0 and (
+            -1 <= left <= 1
+            or (
+                right <= MAX_FOLDED_INT_BITS
+                and left.bit_length() * right <= MAX_FOLDED_INT_BITS
+            )
+        ):
             ret = left**right
             assert isinstance(ret, int)
             return ret
